@@ -81,6 +81,28 @@ func (a Float) M__repr__() (Object, error) {
 // FloatFromString turns a string into a Float
 func FloatFromString(str string) (Object, error) {
 	str = strings.TrimSpace(str)
+	// strconv.ParseFloat is more liberal than python: it reads
+	// hexadecimal floats and digit separators, and it refuses a
+	// sign on a nan.  So do the spelled out values here and let
+	// it see decimal numbers only.
+	unsigned := str
+	negative := false
+	if unsigned != "" && (unsigned[0] == '+' || unsigned[0] == '-') {
+		negative = unsigned[0] == '-'
+		unsigned = unsigned[1:]
+	}
+	switch strings.ToLower(unsigned) {
+	case "nan":
+		return Float(math.NaN()), nil
+	case "inf", "infinity":
+		if negative {
+			return Float(math.Inf(-1)), nil
+		}
+		return Float(math.Inf(1)), nil
+	}
+	if strings.Trim(unsigned, "0123456789.eE+-") != "" {
+		return nil, ExceptionNewf(ValueError, "invalid literal for float: '%s'", str)
+	}
 	f, err := strconv.ParseFloat(str, 64)
 	if err != nil {
 		if numErr, ok := err.(*strconv.NumError); ok {
